@@ -9,7 +9,8 @@ set elements by their own pickle, the pickle protocol.  Recognised shapes are a 
 set (the shipped code and the repaired code); anything else raises TranslateError.
 Hand-modelled and only pinned by shape (tied by the bit-exact correspondence run):
 TypeRegistry.get_hash / get_value / _get_proxy_type / register, MetaValue.__init__,
-ProxyValue.__init__, hashing.hash_tag_bytes, hashing.Hash.
+ProxyValue.__init__, ProxyValue.serialize, RedunBackendDb.record_value (hands get_hash the
+*unsorted* serialization as `data`; Set.get_hash must not use it), hashing.hash_tag_bytes, hashing.Hash.
 """
 from __future__ import annotations
 
@@ -25,6 +26,8 @@ UNIVERSE = {"bool", "int", "float", "str", "bytes", "tuple", "list", "dict", "se
 PINNED = [("redun/value.py", "TypeRegistry", "get_hash"), ("redun/value.py", "TypeRegistry", "get_value"),
           ("redun/value.py", "TypeRegistry", "_get_proxy_type"), ("redun/value.py", "TypeRegistry", "register"),
           ("redun/value.py", "MetaValue", "__init__"), ("redun/value.py", "ProxyValue", "__init__"),
+          ("redun/value.py", "ProxyValue", "serialize"),
+          ("redun/backends/db/__init__.py", "RedunBackendDb", "record_value"),
           ("redun/hashing.py", None, "hash_tag_bytes"), ("redun/hashing.py", "Hash", "__init__"),
           ("redun/hashing.py", "Hash", "update"), ("redun/hashing.py", "Hash", "hexdigest")]
 
@@ -158,6 +161,10 @@ def tr_value(mod):
             fail("Bool overrides get_hash/__init__")
         if n == "Set" and init:
             fail("Set overrides __init__")
+    own_set = [s.name for s in find_class(mod, "Set").body if isinstance(s, (ast.FunctionDef, ast.AsyncFunctionDef))]
+    if own_set != ["get_hash"]:
+        fail(f"Set defines {own_set}; the model assumes it overrides get_hash only (serialize is ProxyValue's, and "
+             "get_hash must ignore the serialized `data` it is handed by RedunBackendDb.record_value)")
     # --- Set.get_hash ----------------------------------------------------------------------
     fn = find_func(mod, "get_hash", "Set")
     if [a.arg for a in fn.args.args] != ["self", "data"] or fn.decorator_list:
@@ -191,7 +198,8 @@ def translate(pins: dict | None = None):
     hmod = load("redun/hashing.py")
     proto, canon_sets = tr_utils(umod)
     default_tag, set_tag, set_sorted, set_presort, proxies = tr_value(vmod)
-    mods = {"redun/utils.py": umod, "redun/value.py": vmod, "redun/hashing.py": hmod}
+    mods = {"redun/utils.py": umod, "redun/value.py": vmod, "redun/hashing.py": hmod,
+            "redun/backends/db/__init__.py": load("redun/backends/db/__init__.py")}
     got = {}
     for f, c, n in PINNED:
         got[f"{c + '.' if c else ''}{n}"] = pin(find_func(mods[f], n, c))
